@@ -413,6 +413,8 @@ def solve(chk, r, tier, inline_all=False, loop_contracts=None, unwind_override=N
                     r.obligations[name] = (st, desc)
         r.log = out
         r.status = 'ok'
+        if chk.get('bounded', tier):
+            r.bounded = chk.get('bounded', tier)
         return r
     r.status = 'undecided'
     r.log = last
@@ -714,6 +716,11 @@ def scan_assumptions(units, results):
             n = len(re.findall(r'__CPROVER_assume', txt))
             ufs = sorted(set(re.findall(r'__CPROVER_uninterpreted_\w+', txt)))
             out.append('trusted model %s (%d __CPROVER_assume%s)' % (m, n, (', uninterpreted: ' + ','.join(ufs)) if ufs else ''))
+        na = len(re.findall(r'__CPROVER_assume', u.contract_text))
+        if na:
+            out.append('%s: %d __CPROVER_assume in contracts.c (harness-level case splits / input shaping; each is a total case split or a stated restriction)' % (u.name, na))
+        if u.cfg.get('mem2reg'):
+            out.append('%s: IR passed through opt -passes=mem2reg before translation' % u.name)
         for a in u.cfg.get('assumptions', []):
             out.append('%s: %s' % (u.name, a))
     return sorted(set(out))
@@ -765,7 +772,7 @@ def write_evidence(args, prop, tier, units, results, lemmas, violations, known, 
             lemmas=lemmas, per_check=per, samples=samples,
             known_findings=known, inconclusive=inconclusive,
         ),
-        assumptions=scan_assumptions(units, results) + ['machine model of z_number: signed 64-bit with overflow obligations (values beyond are assumed to behave alike)'
+        assumptions=scan_assumptions(units, results) + ['machine model of z_number: signed 128-bit integer with range obligations (|v| < 2^100); inputs bounded by each contract; larger magnitudes are assumed to behave alike'
                                                         if any('zmodel' in m for u in units for m in u.cfg.get('models', [])) else 'no big-number model in this property'],
         wall_s=round(wall, 1), violations=len(violations))
     os.makedirs(os.path.join(VERIF, 'evidence'), exist_ok=True)
